@@ -45,19 +45,27 @@ def run_cvc5(smt2, timeout_ms=None):
 _nlmul = z3.Function('nlmul', z3.IntSort(), z3.IntSort(), z3.IntSort())
 
 
+_nl_cache = {}        # term id -> (term kept alive, abstracted term); premises are shared by many obligations of a path
+
+
 def abstract_nonlinear(exprs):
     """Replace products of two non-constant terms by an uninterpreted (commutative-normalised)
-    function.  Validity with the uninterpreted function implies validity with multiplication."""
-    cache = {}
+    function.  Validity with the uninterpreted function implies validity with multiplication.
+    Terms without such a product are returned as they are (no rebuilding)."""
+    if len(_nl_cache) > 400000:
+        _nl_cache.clear()
+    cache = _nl_cache
 
     def walk(e):
         k = e.get_id()
-        if k in cache:
-            return cache[k]
+        hit = cache.get(k)
+        if hit is not None:
+            return hit[1]
         if z3.is_quantifier(e):
             r = e       # left as is
-        elif z3.is_app(e):
-            args = [walk(a) for a in e.children()]
+        elif z3.is_app(e) and e.num_args():
+            kids = e.children()
+            args = [walk(a) for a in kids]
             if e.decl().kind() == z3.Z3_OP_MUL:
                 consts = [a for a in args if z3.is_int_value(a)]
                 others = [a for a in args if not z3.is_int_value(a)]
@@ -69,13 +77,17 @@ def abstract_nonlinear(exprs):
                     for c in consts:
                         acc = c * acc
                     r = acc
+                elif any(a.get_id() != b.get_id() for a, b in zip(args, kids)):
+                    r = e.decl()(*args)
                 else:
-                    r = e.decl()(*args) if args else e
+                    r = e
+            elif any(a.get_id() != b.get_id() for a, b in zip(args, kids)):
+                r = e.decl()(*args)
             else:
-                r = e.decl()(*args) if args else e
+                r = e
         else:
             r = e
-        cache[k] = r
+        cache[k] = (e, r)
         return r
     return [walk(e) for e in exprs]
 
